@@ -95,6 +95,21 @@ class NestRef(Ref):
         return d
 
 
+class PrefixRefused(Exception):
+    """The emulator refused the (legal) common prefix of a walk: that is its behaviour on a legal history, so the
+    checks report it as a violation of their property, not as an infrastructure error."""
+
+    def __init__(self, prefix, hres):
+        Exception.__init__(self, "legal prefix refused: %s" % hres.get("msg"))
+        self.prefix, self.hres = prefix, hres
+
+
+def report_prefix(ctx, e, what, flags=None, spec=None):
+    ctx.violation("%s: the emulator refuses the legal common prefix %s at event %s: %s" % (
+        what, short_hist(e.prefix), e.hres.get("fail_index"), e.hres.get("msg")),
+        {"engine": "E3", "flags": flags, "spec": spec, "history": [x.line() for x in e.prefix]}, {"kind": "prefix-refused", "walk": what})
+
+
 class PrefixPool:
     """Wraps a ServerPool so that every history is prefixed (thread made running first)."""
 
@@ -107,7 +122,9 @@ class PrefixPool:
         self.streams = pool.local.streams
         h, _ = pool.local.expand(prefix, [], echo=True)
         if not h.get("ok"):
-            raise InfraError("prefix refused: %r" % (h,))
+            if h.get("crash"):
+                raise InfraError("prefix crashed the server: %r" % (h,))
+            raise PrefixRefused(prefix, h)
         self.init_lines = pool.local.init_lines + h["lines"]
 
     def expand(self, hist, probes, echo=False):
@@ -123,7 +140,11 @@ class ExplorerP(Explorer):
 
 
 def nest_walk(ctx, pool, ref, name):
-    pp = PrefixPool(pool, [X])
+    try:
+        pp = PrefixPool(pool, [X])
+    except PrefixRefused as e:
+        report_prefix(ctx, e, name, pool.flags, SPEC)
+        return None
     ex = Explorer(ctx, pp, ref, name=name, report_props={"C08"}, check_time=False)
     # teach the explorer 'ok*': wrap step
     orig = ref.step
